@@ -663,6 +663,32 @@ func checkEOFCondition(c *Ctx, fn *ssa.Function, call *ssa.Call, rule, name stri
 				}
 				break
 			}
+			// errors.Is(err, io.EOF), possibly negated, is the err-is-EOF test as well
+			condV, neg := iff.Cond, false
+			if u, isU := condV.(*ssa.UnOp); isU && u.Op == token.NOT {
+				condV, neg = u.X, true
+			}
+			if call, isCall := condV.(*ssa.Call); isCall && callIs(&call.Call, "errors.Is") && len(call.Call.Args) == 2 {
+				isErr := call.Call.Args[0] == ssa.Value(errEx) || stripConv(call.Call.Args[0]) == ssa.Value(errEx)
+				isEOF := false
+				for _, l := range leavesOf(call.Call.Args[1]) {
+					if l.Kind == leafGlobal && l.V.Name() == "EOF" {
+						isEOF = true
+					}
+				}
+				if isErr && isEOF {
+					fact := w.errEOF // the call is true exactly when err is EOF
+					if neg {
+						fact = !fact
+					}
+					if fact {
+						b = b.Succs[0]
+					} else {
+						b = b.Succs[1]
+					}
+					continue
+				}
+			}
 			cmp, ok := iff.Cond.(*ssa.BinOp)
 			if !ok {
 				// not one of our tests (e.g. the Method switch): take the "List" path — unknown, stop
